@@ -1105,6 +1105,8 @@ def r5(ctx):
             chars = set(ALWAYS_SAFE)
             for _nm, safe, _c, _how in calls:
                 chars |= set(safe)
+                if _nm == "quote_plus":
+                    chars.add("+")   # quote_plus writes a space as a literal '+'
             literal[g] = (chars, "written with safe=" + "/".join(sorted({repr(sf) for _n, sf, _c, _h in calls})))
         else:
             literal[g] = (RAW_VALID.get(g, ANY_ASCII), "written raw")
